@@ -1279,7 +1279,7 @@ func lcRunFlt(e *lcEnv) {
 	e.arm(spec.faults...)
 	e.settle()
 	wonly := lcWriteOnly(spec.faults)
-	if spec.next == "conc" {
+	if spec.next == "conc" || spec.next == "dconc" {
 		lcFltConc(e, wonly)
 		return
 	}
@@ -1356,18 +1356,39 @@ func lcFltConc(e *lcEnv, wonly bool) {
 	var k2 *lcCall
 	var k2mu sync.Mutex // K2 is issued once: by the director while K1 holds the client, or else after K1
 	started := make(chan struct{})
-	e.dir.on(point, e.dir.hitCount(point), func() {
-		// K1 holds the client: issue K2 and give it the time to queue up
+	issue := func() bool {
 		k2mu.Lock()
+		defer k2mu.Unlock()
 		if k2 != nil {
-			k2mu.Unlock()
-			return // K1 never came here (it failed before): this is K2 itself
+			return false // K1 never came here (it failed before): this is K2 itself
 		}
 		k2 = e.start(context.Background(), e.id("p"))
-		k2mu.Unlock()
 		close(started)
-		time.Sleep(lcPause)
-	})
+		return true
+	}
+	if e.spec.next == "dconc" {
+		// K2 arrives while K1 is DIALING the replacement of the connection it has lost: K1 holds the client across
+		// the dial, so K2 waits; a K2 that got in would dial as well and one of the two connections would be lost
+		e.net.setInDial(func(idx int) {
+			if issue() {
+				k2mu.Lock()
+				c := k2
+				k2mu.Unlock()
+				select {
+				case <-c.done:
+				case <-time.After(8 * lcPause):
+				}
+			}
+		})
+		defer e.net.setInDial(nil)
+	} else {
+		e.dir.on(point, e.dir.hitCount(point), func() {
+			// K1 holds the client: issue K2 and give it the time to queue up
+			if issue() {
+				time.Sleep(lcPause)
+			}
+		})
+	}
 	ph := e.begin("pp")
 	f0 := e.firedCount()
 	k1 := e.start(context.Background(), e.id("p"))
@@ -1496,6 +1517,10 @@ func lcRunCls(e *lcEnv) {
 	e.exactDials = true
 	e.arm(spec.faults...)
 	e.settle()
+	if spec.pt == "inClose" {
+		lcClsInClose(e)
+		return
+	}
 	point := lcPoints[spec.pt]
 	var wg sync.WaitGroup
 	e.dir.on(point, e.dir.hitCount(point), func() {
@@ -1517,6 +1542,49 @@ func lcRunCls(e *lcEnv) {
 		ph.acts = "pK"
 	}
 	e.res.Counts = append(e.res.Counts, "cls.pending="+c.outcome, fmt.Sprintf("cls.point=%s hit=%v", spec.pt, hit))
+	e.plain(e.begin("p"), false)
+	e.res.Nontrivial = hit
+	e.finish(nil)
+}
+
+// C11: a call is issued while Close() is in the middle of closing the connection (at cli.terminate.afterCancel of
+// Close's own terminate) and runs to its end before Close goes on. The client counts as closed from the moment
+// Close() is called: the call fails, or at any rate leaves nothing behind (no connection installed that Close has
+// not seen: the goroutine check of finish); afterwards calls fail without dialing.
+func lcClsInClose(e *lcEnv) {
+	pa := lcPoints["afterCancel"]
+	var k *lcCall
+	var kmu sync.Mutex
+	e.dir.on(pa, e.dir.hitCount(pa), func() {
+		if !e.closing.Load() {
+			return
+		}
+		kmu.Lock()
+		k = e.start(context.Background(), e.id("p"))
+		c := k
+		kmu.Unlock()
+		select {
+		case <-c.done:
+		case <-time.After(20 * lcPause):
+		}
+	})
+	ph := e.begin("pk")
+	dials0 := e.net.dialCount()
+	e.closeClient()
+	kmu.Lock()
+	c := k
+	kmu.Unlock()
+	hit := c != nil
+	if c != nil {
+		e.wait(c)
+		ph.record('p', c)
+		// (a call that gets through before Close() has returned is not a violation by itself: what it installs must
+		// not outlive Close — the goroutine check of finish)
+		e.res.Counts = append(e.res.Counts, fmt.Sprintf("cls.inClose call=%s dials=%d", c.outcome, e.net.dialCount()-dials0))
+	} else {
+		ph.acts = "K"
+	}
+	e.res.Counts = append(e.res.Counts, fmt.Sprintf("cls.point=inClose hit=%v", hit))
 	e.plain(e.begin("p"), false)
 	e.res.Nontrivial = hit
 	e.finish(nil)
@@ -2018,6 +2086,17 @@ func lcSpecs(ctx *Ctx, dry lcDry) []string {
 			add(&lcSpec{fam: "cls", n: async, pt: "afterCancel", srv: "-", next: "-", seed: seed, faults: []*lcFault{{dir: 'r', conn: 0, k: r0 - 1, kind: "eof", timing: "data"}}})
 			add(&lcSpec{fam: "cls", n: async, pt: "beforeReconnect", srv: "-", next: "-", seed: seed, faults: []*lcFault{{dir: 'r', conn: 0, k: r0 - 1, kind: "eof", timing: "data"}}})
 			add(&lcSpec{fam: "cls", n: async, pt: "beforeReconnect", srv: "-", next: "-", seed: seed, faults: []*lcFault{{dir: 'w', conn: 0, k: w0, kind: "closed"}}})
+		}
+		// a call issued while Close() is closing the connection
+		add(&lcSpec{fam: "cls", n: 0, pt: "inClose", srv: "-", next: "-", seed: seed})
+		// a second caller arrives while the first is dialing the replacement of a lost connection
+		for _, f := range []*lcFault{
+			{dir: 'r', conn: 0, k: r0 - 1, kind: "eof", timing: "data"},
+			{dir: 'r', conn: 0, k: r0 - 1, kind: "closed", timing: "call"},
+			{dir: 'w', conn: 0, k: w0, kind: "closed"},
+			{dir: 'w', conn: 0, k: w0, kind: "car"},
+		} {
+			add(&lcSpec{fam: "flt", pt: "-", srv: "-", faults: []*lcFault{f}, next: "dconc", seed: seed})
 		}
 		// (e) retry budget: up to one drop more than the observed budget (at least 5), both ways of losing a connection
 		for n := 1; n <= max(5, dry.budget+1); n++ {
